@@ -31,6 +31,7 @@ import HdVerif.Generated.T20ctor_ann_sop
 import HdVerif.Generated.T20ctor_pr_content
 import HdVerif.Generated.T20ctor_pr_sop
 import HdVerif.Generated.T20ctor_legacy_sop
+import HdVerif.Generated.T20ctor_volume
 /-! The alias-flow tables regenerated from /repo, collected (C20). -/
 namespace HdVerif.Aliasing
 open HdVerif.Gen
@@ -68,7 +69,8 @@ def allCtors : List Entry :=
   ctor_ann_sop ++
   ctor_pr_content ++
   ctor_pr_sop ++
-  ctor_legacy_sop
+  ctor_legacy_sop ++
+  ctor_volume
 
 /-- constructors the extractor could not abstract (none on the pinned tree) -/
 def allCtorSkipped : List String :=
@@ -90,7 +92,8 @@ def allCtorSkipped : List String :=
   ctorSkipped_ann_sop ++
   ctorSkipped_pr_content ++
   ctorSkipped_pr_sop ++
-  ctorSkipped_legacy_sop
+  ctorSkipped_legacy_sop ++
+  ctorSkipped_volume
 
 /-- what the model predicts a caller can observe of one entry with the `copy` bit fixed (`none`: no such parameter),
 over all valuations of the other conditions: (may return the object passed in, may return a new object, may return a
